@@ -873,6 +873,19 @@ pub fn extract_item(sf: &SourceFile, it: &Value, cfg: &Config) -> std::result::R
             Cur::ItemFn(f) => t.visit_item_fn(f),
             Cur::ImplFn(f) => t.visit_impl_item_fn(f),
             Cur::Item(i) => t.visit_item(i),
+            Cur::Arm(a) => t.visit_arm(a),
+            Cur::Closure(c) => t.visit_expr_closure(c),
+            Cur::Expr(e) => t.visit_expr(e),
+            Cur::Exprs(es) => {
+                for e in es.iter() {
+                    t.visit_expr(e)
+                }
+            }
+            Cur::Stmts(ss) => {
+                for st in ss.iter() {
+                    t.visit_stmt(st)
+                }
+            }
             _ => {}
         }
     }
